@@ -748,6 +748,8 @@ class Program:
         for f in self.functions.values():
             if f.get("file", "").startswith(REPO) and "/lib/" not in f.get("file", ""):
                 self.inlined_lambda_calls += normalize.inline_local_lambdas(f)
+        self.threaded_switches = normalize.thread_constant_switches(self, REPO)
+        self.sunk_declarations = normalize.sink_single_assignments(self, REPO)
         self.pointer_views = normalize.pointer_views_to_subscripts(self, REPO)
         self.if_converted = normalize.if_convert_and_sink_declarations(self, REPO)
         self.unrolled_loops = normalize.unroll_constant_loops(self, REPO)
